@@ -209,6 +209,16 @@ inductive Node where
   | task (f : Func) (args : List Node) (kw : List (Obj × Node))
   deriving Repr, Inhabited
 
+/-- `Alias.__init__(key, target=None)`: the target that is stored. Only a *missing* target defaults to the alias's own
+    key; an explicit target is kept whatever its truth value (`0`, `''`, `()` are legitimate keys). -/
+def aliasInit (key : Obj) (target : Option Obj) : Obj :=
+  match target with
+  | none => key
+  | some t => t
+
+/-- `Alias(key, target)` as a node -/
+def mkAlias (key : Obj) (target : Option Obj) : Node := .alias (aliasInit key target)
+
 /-- `isinstance(x, GraphNode)` -/
 def Node.isGraphNode : Node → Bool
   | .alias _ | .data _ | .task _ _ _ => true
